@@ -77,9 +77,24 @@
   (sequential destroy, and waiting destroy served after the creation settled),
   `C06_destroyed_after_deploy_clean_code` (waiting destroy served right after DEPLOY); tie
   `C06_teardown_reads_under_mutex_is_code`.
+
+  A creation may fail in acquireTasks' OWN TAIL, after every requested task was launched: its lock loop meets a new task
+  that cannot be locked because its placement data is incomplete (the offer carried no hostname: `SettleOracle.blank`;
+  "cannot be locked" = Model/TaskIds `Fields.locked` on the record with its parent set). The block `if !deploymentSuccess`
+  then un-parents EVERY deployed task — the siblings that did lock included —, all of them go into the roster, no role gets
+  its task, and the failure tail of CreateEnvironment finds no task of the environment to release or kill. Section "a
+  deployment that fails in acquireTasks' own tail": `C06_lock_failure_iff`, `C06_lock_failure_detaches_all_code` (nothing the
+  failed lock loop appended to the roster has a parent), `C06_failed_in_lock_loop_clean_code` / `_partial` (the creation answers
+  the deployment error and leaves the environment clean: not listed, NO roster task owned by it, every task launched for it
+  unowned in the roster), `C06_lock_failure_leftovers_fall_to_cleanup` (where the next Cleanup reaches every one of them),
+  `C06_detach_on_spot_leaves_owned` (the variant `Cfg.detachOnSpot` — detach only the task that cannot be locked, on the spot —
+  is refuted: the siblings stay locked to an environment that no longer exists, out of reach of Cleanup and KillTasks), tie
+  `C06_lock_failure_unparents_all_is_code`; over whole runs: `C06_owner_always_listed` (no roster task is ever parented by an
+  environment that is not listed and does not reference it), `C06_locked_means_listed_code`, `C06_owner_listed_needs_blanket_unparent`.
 -/
-import ControlModel.Proofs.OwnOverlap
+import ControlModel.Proofs.OwnListed
 import ControlModel.Gen.C06Facts
+import ControlModel.Gen.C06LockFacts
 
 open Own
 
@@ -826,3 +841,185 @@ theorem C06_wedge_keeps_everything (s : State) (k : EnvId) :
     by_cases hX : X.id = k
     · simp [hX]
     · simp only [hX, if_false] at hk
+
+
+/-! ## a deployment that fails in acquireTasks' own tail: a launched task that cannot be locked -/
+
+/-- **When the lock loop fails**: some task of those launched cannot be locked iff some descriptor that was run is placed on
+    a host whose offer carried no hostname (`blankHosts`) — every other identity field of a new task record is there
+    (newTaskForMesosOffer: agent id and offer id from the offer, executor id from the offer or fresh, a fresh task id, the
+    parent role set before `IsLocked()` is asked). -/
+theorem C06_lock_failure_iff (s : State) (k : EnvId) (toRun : List (Nat × RoleSpec)) (o : SettleOracle) :
+    lockFailure (launchedTasks s k toRun o) = true ↔ ∃ t ∈ launchedTasks s k toRun o, t.host ∈ blankHosts s o := by
+  simp only [lockFailure, List.any_eq_true, Bool.not_eq_true']
+  constructor
+  · rintro ⟨t, ht, hl⟩
+    have := (launched_locked s k toRun o t ht).1
+    rw [hl] at this
+    exact ⟨t, ht, by simpa using this.symm⟩
+  · rintro ⟨t, ht, hb⟩
+    refine ⟨t, ht, ?_⟩
+    rw [(launched_locked s k toRun o t ht).1]
+    simpa using hb
+
+/-- … and `Fields.locked` on the record is `isLocked`, the predicate every ownership guard of the core reads. -/
+theorem C06_cannot_be_locked_is_isLocked (t : Task) : t.isLocked = t.fields.locked := isLocked_fields t
+
+/-- **The failed lock loop un-parents everything it launched** (every configuration with the code's blanket un-parenting):
+    a roster entry after acquireTasks' failed tail is an old one, untouched, or a new one (fresh id) without a parent and
+    unlocked — whether it had locked in the loop or not. The listing and the tasks the roles reference are as before. -/
+theorem C06_lock_failure_detaches_all_code (s : State) (k : EnvId) (toRun : List (Nat × RoleSpec)) (o : SettleOracle)
+    (hc : s.cfg.detachOnSpot = false) :
+    (∀ t ∈ (acquireUnlocked s k toRun o).roster, t ∈ s.roster ∨ (t.parent = none ∧ t.isLocked = false ∧ s.nextTask ≤ t.id)) ∧
+    (acquireUnlocked s k toRun o).envs = s.envs :=
+  ⟨lockFail_unowned s k toRun o hc, rfl⟩
+
+/-- The full-strength claim, for configuration `c`: a creation that fails in acquireTasks' lock loop — from the state in
+    which the settling creation finds itself: a state of a run (`Inv`), the creation inserted, nothing referring to `k` yet
+    (`freshEnv`), every wanted host offering, some launched task not lockable — answers the deployment error and leaves the
+    environment clean; in particular no roster task has `k` as parent. -/
+def C06_failed_in_lock_loop_clean_full (c : Cfg) : Prop :=
+  ∀ (s : State) (k : EnvId) (o : SettleOracle) (p : Pending), Inv s → s.cfg = c → s.pending? k true = some p → freshEnv s k = true →
+    (∀ d ∈ descriptors p.spec, d.2.host ∈ s.hosts) →
+    lockFailure (launchedTasks (dropPending s k) k
+      ((descriptors p.spec).filter (fun d => decide (d.1 ∉ (claimsOf (dropPending s k) p).map (·.1)))) o) = true →
+    (createSettle s k o).2 = .errDeploy ∧ cleanAfter k false (viewOf (createSettle s k o).1) = true ∧
+    (∀ t ∈ (createSettle s k o).1.roster, t.parent ≠ some k)
+
+/-- **A creation that fails in acquireTasks' lock loop leaves nothing behind** — the code as it is, every state of a
+    run, every oracle (which hosts' offers lacked the hostname, which of the launched tasks had reported when the roster is
+    swept, the rendezvous oracle), with or without reuseUnlockedTasks: the creation answers the deployment error, `k` is
+    not listed, NO roster task is owned by it — the siblings of the unlockable task, which did lock in the loop, included
+    —, every task launched for it sits unowned in the roster, its detectors are free, its calls cancelled. -/
+theorem C06_failed_in_lock_loop_clean_code : C06_failed_in_lock_loop_clean_full codeCfg := by
+  intro s k o p h hc hp hfr hhosts hlf
+  have hnc : s.reuse = false ∨ s.cfg.unlockUnpaired = false := Or.inr (by simp [hc, codeCfg])
+  have hnh := settle_lockFail_not_hang s h (by simp [hc, codeCfg]) k o p hp hhosts hnc hlf
+  exact settle_lockFail_clean s h (by simp [hc, codeCfg]) k o p hp hfr hhosts hnc hlf hnh
+
+/-- The same in every configuration that has the code's blanket un-parenting (the code as it was included), unless the
+    failure tail's teardown hangs (legacy: the rendezvous race) or the process died at a complete claim (legacy). -/
+theorem C06_failed_in_lock_loop_clean_partial (s : State) (h : Inv s) (hc : s.cfg.detachOnSpot = false)
+    (k : EnvId) (o : SettleOracle) (p : Pending) (hp : s.pending? k true = some p) (hfr : freshEnv s k = true)
+    (hhosts : ∀ d ∈ descriptors p.spec, d.2.host ∈ s.hosts) (hnc : s.reuse = false ∨ s.cfg.unlockUnpaired = false)
+    (hlf : lockFailure (launchedTasks (dropPending s k) k
+      ((descriptors p.spec).filter (fun d => decide (d.1 ∉ (claimsOf (dropPending s k) p).map (·.1)))) o) = true)
+    (hnh : (createSettle s k o).2 ≠ .hang) :
+    (createSettle s k o).2 = .errDeploy ∧ cleanAfter k false (viewOf (createSettle s k o).1) = true ∧
+    (∀ t ∈ (createSettle s k o).1.roster, t.parent ≠ some k) :=
+  settle_lockFail_clean s h hc k o p hp hfr hhosts hnc hlf hnh
+
+/-- **What the failed creation left falls to the next Cleanup**: in any later state whose roster is the one the failed
+    lock loop left (and while no KILL call fails), a Cleanup takes every one of the appended entries out of the roster —
+    what stays are old entries that are locked. -/
+theorem C06_lock_failure_leftovers_fall_to_cleanup (s : State) (k : EnvId) (toRun : List (Nat × RoleSpec)) (o : SettleOracle)
+    (hc : s.cfg.detachOnSpot = false) (s' : State) (hr : s'.roster = (acquireUnlocked s k toRun o).roster)
+    (href : s'.refusing = []) :
+    ∀ t ∈ (cleanup s').roster, t ∈ s.roster ∧ t.isLocked = true :=
+  lockFail_next_cleanup s k toRun o hc s' hr href
+
+/-- Three tasks on hosts 1, 2, 3. -/
+def lockSpec : EnvSpec :=
+  { bad := .ok, dets := [0], roles := [{ kind := .task, cls := 1, host := 1 }, { kind := .task, cls := 2, host := 2 },
+                                       { kind := .task, cls := 3, host := 3 }] }
+
+/-- The creation of `lockSpec` inserted, under configuration `c`. -/
+def lockPre (c : Cfg := codeCfg) : State :=
+  run (init false [1, 2, 3, 4] c) [.createBegin 0 lockSpec, .createCleanup 0, .createInsert 0]
+
+/-- The offer for host 2 carried no hostname. -/
+def lockOracle : SettleOracle := { blank := [2] }
+
+/-- NOT the code: detach only the task that cannot be locked, on the spot. -/
+def detachCfg : Cfg := { codeCfg with detachOnSpot := true }
+
+/-- **The variant that is not the code is refuted**: with `detachOnSpot` the siblings of the unlockable task keep the
+    parent role of an environment that is gone — the full-strength claim fails on the witness below (hypotheses: evaluated
+    in the kernel; the invariant: `C04_invariant`'s lemma). The theorems above depend on the blanket un-parenting. -/
+theorem C06_detach_on_spot_leaves_owned : ¬ C06_failed_in_lock_loop_clean_full detachCfg := by
+  intro h
+  have hinv : Inv (lockPre detachCfg) := inv_run _ _ (by decide) (inv_init false [1, 2, 3, 4] detachCfg)
+  have := h (lockPre detachCfg) 0 lockOracle
+    { id := 0, spec := lockSpec, snapshot := [], cleaned := true, inserted := true, claims := none }
+    hinv (by decide) (by rfl) (by decide) (by decide) (by decide)
+  revert this
+  decide
+
+/-- The witness under the code as it is: the creation answers the deployment error, the environment is gone, the three
+    tasks — two of which had locked — sit in the roster unowned and unlocked, none was killed, `cleanAfter` holds; the next
+    cleanup sends each of them a KILL. Under `detachCfg`: tasks 1 and 3 are still owned by environment 0 and locked,
+    `cleanAfter` fails, and neither Cleanup nor KillTasks (the pre-deployment cleanup of every later creation, CleanupTasks
+    with or without ids) ever touches them. -/
+example :
+    (createSettle lockPre 0 lockOracle).2 = .errDeploy ∧
+    (viewOf (createSettle lockPre 0 lockOracle).1).envs = [] ∧
+    (viewOf (createSettle lockPre 0 lockOracle).1).roster =
+      [{ task := 1, owner := none, locked := false, state := none }, { task := 2, owner := none, locked := false, state := none },
+       { task := 3, owner := none, locked := false, state := none }] ∧
+    ((createSettle lockPre 0 lockOracle).1.master.map (fun m => (m.id, m.mesos, m.killed))) =
+      [(1, .running, false), (2, .running, false), (3, .running, false)] ∧
+    cleanAfter 0 false (viewOf (createSettle lockPre 0 lockOracle).1) = true ∧
+    ((step (createSettle lockPre 0 lockOracle).1 .cleanup).1.master.map (fun m => (m.id, m.killed))) = [(1, true), (2, true), (3, true)] ∧
+    (step (createSettle lockPre 0 lockOracle).1 .cleanup).1.roster = [] ∧
+    -- NOT the code
+    (createSettle (lockPre detachCfg) 0 lockOracle).2 = .errDeploy ∧
+    (viewOf (createSettle (lockPre detachCfg) 0 lockOracle).1).envs = [] ∧
+    (viewOf (createSettle (lockPre detachCfg) 0 lockOracle).1).roster =
+      [{ task := 1, owner := some 0, locked := true, state := some .STANDBY }, { task := 2, owner := none, locked := false, state := none },
+       { task := 3, owner := some 0, locked := true, state := some .STANDBY }] ∧
+    cleanAfter 0 false (viewOf (createSettle (lockPre detachCfg) 0 lockOracle).1) = false ∧
+    ((step (step (createSettle (lockPre detachCfg) 0 lockOracle).1 .cleanup).1 (.killIds [1, 2, 3])).1.roster.map (fun t => (t.id, t.parent, t.isLocked))) =
+      [(1, some 0, true), (3, some 0, true)] := by
+  decide
+
+/-- **The model's failure block of acquireTasks is the code's**: go/ast of core/task/manager.go finds the lock loop
+    (`X.SetParent(role); if !X.IsLocked() { … deploymentSuccess = false }` over deployedTasks, under `if deploymentSuccess`)
+    detaching nothing, the one top-level `if !deploymentSuccess` un-parenting EVERY task of deployedTasks (`X.SetParent(nil)`
+    directly in the body of the range, under no further condition), no other `SetParent(nil)` in the function, every deployed
+    task appended to the roster unconditionally, and every `SetTask` under `if deploymentSuccess`. A SetParent(nil) moved into
+    the lock loop, a condition around the one in the failure block, a role that gets its task on failure: each breaks this
+    theorem. (Both configurations of the code, as it is and as it was, have the blanket un-parenting.) -/
+theorem C06_lock_failure_unparents_all_is_code :
+    codeCfg.detachOnSpot = !Gen.lockFailureUnparentsAll ∧ legacyCfg.detachOnSpot = !Gen.lockFailureUnparentsAll ∧
+    Gen.acquireTailCounts = (1, 1, 1, 1, 1, 1, 1, 2, 2) := ⟨by decide, by decide, by rfl⟩
+
+
+/-! ## over whole runs: no task is ever parented by an environment that is not listed -/
+
+/-- **No roster task is ever parented by an environment that is not listed**: after ANY sequence of steps from the initial
+    state — creations cut into their atomic parts and failing at any stage (the lock loop included), control requests,
+    destroys with any flags and any inner failure, cleanups, lost executors and agents, watcher reactions, failing KILL calls,
+    status updates with absent fields; any oracles — every roster task that has a parent role belongs to an environment that
+    IS listed and references it. (Without reuseUnlockedTasks and free-standing claim steps, in every configuration that has the
+    code's blanket un-parenting after a failed lock loop and its release of the DESTROY hook tasks of all weights — `codeCfg`
+    among them; `legacyCfg` is not: finding destroy_hooks_unreleased left hook tasks parented by a deleted environment.) -/
+theorem C06_owner_always_listed (hosts : List Host) (c : Cfg) (hd : c.detachOnSpot = false) (hl : c.lastWeightOnly = false)
+    (steps : List Step) (h : noClaimSteps steps = true) :
+    ∀ t ∈ (run (init false hosts c) steps).roster, ∀ e, t.parent = some e →
+      ∃ E ∈ (run (init false hosts c) steps).envs, E.id = e ∧ t.id ∈ E.tasks :=
+  ol_run steps h (init false hosts c) (inv_init false hosts c) rfl hd hl (by intro t ht; simp [init] at ht)
+
+/-- … in particular in the code as it is: **a task that is locked is locked to a listed environment** — there is no state
+    of a run in which Cleanup and KillTasks (which spare locked tasks) spare a task of an environment that no longer exists. -/
+theorem C06_locked_means_listed_code (hosts : List Host) (steps : List Step) (h : noClaimSteps steps = true) :
+    ∀ t ∈ (run (init false hosts) steps).roster, t.isLocked = true →
+      ∃ E ∈ (run (init false hosts) steps).envs, t.owner = some E.id ∧ t.id ∈ E.tasks := by
+  intro t ht hlk
+  cases hp : t.parent with
+  | none => simp [Task.isLocked, hp] at hlk
+  | some e =>
+    obtain ⟨E, hE, hid, hin⟩ := C06_owner_always_listed hosts codeCfg rfl rfl steps h t ht e hp
+    exact ⟨E, hE, by simp [Task.owner, hlk, hp, hid], hin⟩
+
+/-- **The blanket un-parenting is needed**: in the configuration that is NOT the code (`detachCfg`: only the task that cannot
+    be locked is detached, on the spot) the creation of `lockSpec` with the offer for host 2 lacking the hostname ends with
+    task 1 parented by — and locked to — environment 0, which is not listed any more. -/
+theorem C06_owner_listed_needs_blanket_unparent :
+    ¬ (∀ t ∈ (createSettle (lockPre detachCfg) 0 lockOracle).1.roster, ∀ e, t.parent = some e →
+        ∃ E ∈ (createSettle (lockPre detachCfg) 0 lockOracle).1.envs, E.id = e ∧ t.id ∈ E.tasks) := by
+  intro h
+  obtain ⟨E, hE, _⟩ := h { id := 1, cls := 1, host := 1, hostOk := true, agent := true, offer := true, executor := true,
+                            parent := some 0, active := true, state := .STANDBY } (by decide) 0 rfl
+  have hnil : (createSettle (lockPre detachCfg) 0 lockOracle).1.envs = [] := by decide
+  rw [hnil] at hE
+  simp at hE
